@@ -111,8 +111,8 @@ theorem runJob_js (flt : Option Fault) :
     simp only [runJob]
     by_cases hcan : (f.kind == FKind.cancel) = true
     · simp only [hcan, if_true]
-      by_cases h100 : f.pos ≥ 100
-      · simp only [h100, if_true]
+      by_cases h100 : (f.pos = 100 ∨ f.pos = 101) ∧ (validInputs s ins).isEmpty = false
+      · simp only [h100, and_self, if_true]
         exact ⟨js_start s hs h0 ins, fun h => by simp at h, fun _ _ _ _ => h0⟩
       · simp only [h100, if_false]; exact ⟨hfull.1, fun _ => hfull.2, fun _ _ _ _ => hfull.2⟩
     · simp only [hcan, Bool.false_eq_true, if_false]
